@@ -725,3 +725,102 @@ Proof.
   unfold clamp_dim, dim_limit.
   destruct (Z.ltb_spec (n - 2) dim_max); destruct (Z.ltb_spec 125 (n - 2)); destruct (Z.ltb_spec 125 dim_max); lia.
 Qed.
+
+(* ================================================================== K. the oracle's complex is the flag complex of the threshold graph *)
+Inductive subseq {A : Type} : list A -> list A -> Prop :=
+| sub_nil : subseq [] []
+| sub_skip s v r : subseq s r -> subseq s (v :: r)
+| sub_take s v r : subseq s r -> subseq (v :: s) (v :: r).
+Fixpoint pairwise {A : Type} (ok : A -> A -> bool) (s : list A) : bool :=
+  match s with [] => true | v :: r => forallb (ok v) r && pairwise ok r end.
+
+Lemma cliques_spec ok vs k : forall s,
+  In s (cliques ok vs k) <-> subseq s vs /\ (length s <= k)%nat /\ pairwise ok s = true.
+Proof.
+  induction vs as [|v r IH]; intros s; cbn [cliques].
+  - split.
+    + intros [<-|[]]. split; [constructor|]. split; [cbn; lia|reflexivity].
+    + intros (H & _ & _). inversion H. left. reflexivity.
+  - rewrite in_app_iff, in_map_iff. split.
+    + intros [H|(t & <- & H)].
+      * apply IH in H. destruct H as (A & B & C). split; [constructor; exact A|]. split; assumption.
+      * apply filter_In in H. destruct H as [H1 H2]. apply IH in H1. destruct H1 as (A & B & C).
+        apply andb_true_iff in H2. destruct H2 as [H2 H3]. apply Nat.ltb_lt in H2.
+        split; [constructor; exact A|]. split; [cbn [length]; lia|]. cbn [pairwise]. rewrite H3, C. reflexivity.
+    + intros (A & B & C). inversion A as [|s' v' r' A'|s' v' r' A']; subst.
+      * left. apply IH. split; [exact A'|]. split; assumption.
+      * right. cbn [pairwise] in C. apply andb_true_iff in C. destruct C as [C1 C2]. cbn [length] in B.
+        exists s'. split; [reflexivity|]. apply filter_In. split.
+        -- apply IH. split; [exact A'|]. split; [lia|exact C2].
+        -- apply andb_true_iff. split; [apply Nat.ltb_lt; lia|exact C1].
+Qed.
+
+(* the simplices of the oracle are exactly the non-empty subsequences of 0..n-1 with at most dim_max+2 elements that are pairwise
+   joined by an edge of the threshold graph *)
+Theorem simplices_spec M T n dim_max s :
+  In s (simplices M T n dim_max) <->
+  s <> [] /\ subseq s (seq 0 n) /\ (length s <= dim_max + 2)%nat /\ pairwise (edge_ok M T) s = true.
+Proof.
+  unfold simplices. rewrite filter_In, cliques_spec. split.
+  - intros ((A & B & C) & D). split; [destruct s; [discriminate|congruence]|]. split; [exact A|]. split; assumption.
+  - intros (A & B & C & D). split; [split; [exact B|split; assumption]|]. destruct s; [congruence|reflexivity].
+Qed.
+
+Lemma insert_sorted_in x y l : In x (insert_sorted y l) <-> y = x \/ In x l.
+Proof.
+  induction l as [|z l IH]; cbn [insert_sorted].
+  - cbn. tauto.
+  - destruct (simplex_le y z); cbn [In]; [tauto|]. rewrite IH. tauto.
+Qed.
+Lemma sort_simplices_in l x : In x (sort_simplices l) <-> In x l.
+Proof.
+  unfold sort_simplices. induction l as [|y l IH]; cbn [fold_right]; [tauto|].
+  rewrite insert_sorted_in, IH. cbn [In]. tauto.
+Qed.
+(* the filtration lists exactly these simplices, each with its diameter *)
+Theorem filtration_spec M T n dim_max d s :
+  In (d, s) (filtration M T n dim_max) <-> In s (simplices M T n dim_max) /\ d = diam M s.
+Proof.
+  unfold filtration. rewrite sort_simplices_in, in_map_iff. split.
+  - intros (t & E & H). inversion E; subst. split; [exact H|reflexivity].
+  - intros [H ->]. exists s. split; [reflexivity|exact H].
+Qed.
+
+(* the diameter: the largest pairwise dissimilarity (0 for a vertex) *)
+Lemma diam_to_spec M v s : forall acc,
+  acc <= diam_to M v s acc /\ (forall w, In w s -> dget M v w <= diam_to M v s acc) /\
+  (diam_to M v s acc = acc \/ exists w, In w s /\ diam_to M v s acc = dget M v w).
+Proof.
+  induction s as [|a s IH]; intros acc; cbn [diam_to].
+  - split; [lia|]. split; [intros w []|left; reflexivity].
+  - destruct (IH (Z.max acc (dget M v a))) as (A & B & C). split; [lia|]. split.
+    + intros w [<-|H]; [lia|apply B; exact H].
+    + destruct C as [C|(w & Hw & C)].
+      * destruct (Z.max_spec acc (dget M v a)) as [[_ E]|[_ E]].
+        -- right. exists a. split; [left; reflexivity|rewrite C; exact E].
+        -- left. rewrite C. exact E.
+      * right. exists w. split; [right; exact Hw|exact C].
+Qed.
+Lemma diam_acc_spec M s : forall acc,
+  acc <= diam_acc M s acc /\
+  (forall pre v post w, s = pre ++ v :: post -> In w post -> dget M v w <= diam_acc M s acc) /\
+  (diam_acc M s acc = acc \/ exists pre v post w, s = pre ++ v :: post /\ In w post /\ diam_acc M s acc = dget M v w).
+Proof.
+  induction s as [|a s IH]; intros acc; cbn [diam_acc].
+  - split; [lia|]. split; [|left; reflexivity]. intros pre v post w E. destruct pre; discriminate.
+  - destruct (diam_to_spec M a s acc) as (A1 & B1 & C1).
+    destruct (IH (diam_to M a s acc)) as (A & B & C). split; [lia|]. split.
+    + intros pre v post w E Hw. destruct pre as [|x pre]; cbn [app] in E; inversion E; subst.
+      * specialize (B1 w Hw). lia.
+      * apply (B pre v post w eq_refl Hw).
+    + destruct C as [C|(pre & v & post & w & E & Hw & C)].
+      * destruct C1 as [C1|(w & Hw & C1)].
+        -- left. lia.
+        -- right. exists [], a, s, w. split; [reflexivity|]. split; [exact Hw|lia].
+      * right. exists (a :: pre), v, post, w. split; [cbn [app]; rewrite E; reflexivity|]. split; [exact Hw|exact C].
+Qed.
+Theorem diam_spec M s :
+  0 <= diam M s /\
+  (forall pre v post w, s = pre ++ v :: post -> In w post -> dget M v w <= diam M s) /\
+  (diam M s = 0 \/ exists pre v post w, s = pre ++ v :: post /\ In w post /\ diam M s = dget M v w).
+Proof. unfold diam. apply diam_acc_spec. Qed.
